@@ -236,6 +236,10 @@ func (tr *Tr) stdModel(fr *Frame, site ssa.Instruction, c *ssa.CallCommon, sf *s
 	case "github.com/google/uuid.NewRandom", "github.com/google/uuid.New", "github.com/google/uuid.NewString", "github.com/google/uuid.NewUUID":
 		tr.effect(fr, site, "random")
 		return tr.freshVal(rt, "uuid_random"), true
+	case "(time.Time).Year", "(time.Time).Day", "(time.Time).Hour", "(time.Time).Minute", "(time.Time).Second", "(time.Time).Month":
+		// calendar fields of a time value: deterministic functions of the value, within their calendar ranges
+		tr.trust("time.Time calendar accessors (Year, Month, Day, Hour, Minute, Second): deterministic functions of the value, in range")
+		return Val{tr.timeField(sf.Name(), args[0])}, true
 	case "time.Now", "time.Since", "time.Until":
 		tr.effect(fr, site, "clock")
 		return tr.freshVal(rt, "time_now"), true
@@ -678,4 +682,31 @@ func (tr *Tr) curStateForGlobals() *State {
 		return tr.fr().st
 	}
 	return tr.entry
+}
+
+// timeField: the uninterpreted calendar field of a time.Time value (all its leaves are arguments), with its range.
+func (tr *Tr) timeField(name string, t Val) *Term {
+	f := tr.f
+	var as []*Term
+	for _, l := range t {
+		if l.S.K == KBV && l.S.W != 64 {
+			as = append(as, f.Ext(l, 64, false))
+		} else if l.S.K == KBV {
+			as = append(as, l)
+		}
+	}
+	v := f.App("time_"+name, S64, as...)
+	lo, hi := int64(0), int64(59)
+	switch name {
+	case "Year":
+		lo, hi = -292277022399, 292277026596
+	case "Month":
+		lo, hi = 1, 12
+	case "Day":
+		lo, hi = 1, 31
+	case "Hour":
+		lo, hi = 0, 23
+	}
+	tr.assume(f.And(f.SLe(f.BVi(64, lo), v), f.SLe(v, f.BVi(64, hi))), "calendar range of time."+name)
+	return v
 }
